@@ -12,7 +12,9 @@ SETTINGS = [None, "rel", "abs"]
 # jfrel / jfwdrel: the same with RELATIVE paths written with `./`, `dir/./` and a `name/..` detour (cleaned lexically)
 FLAGS = ["none", "jf", "jfwd", "jfrel", "jfwdrel"]
 INVS = ["proj", "proj/x/y", "proj/mods", "elsewhere"]
-ATTRS = [None, "rel", "abs"]
+ATTRS = [None, "rel", "abs", "relsym"]
+# relsym: a relative attribute that goes through a symbolic link and back up (`lnk/../elsewhere`): the directory is the one
+# the operating system reaches that way (the link's target's parent), not the lexically shortened path
 # (invocation directory, what is written in front of the recipe name); `@` stands for the scratch directory
 PATHWORDS = [("proj", "x/y/"), ("proj", "./x/"), ("proj/x/y", "../"), ("proj/x", "y/"), ("elsewhere", "../proj/x/y/"), ("elsewhere", "@/proj/x/"),
              ("proj/mods", "../x/y/")]
@@ -56,6 +58,10 @@ def layout(d, c):
             "abs1/ad", "abs2", "other/ad", "other/wd/ad", "elsewhere"]
     for x in dirs:
         os.makedirs(os.path.join(d, x), exist_ok=True)
+    if c["attr"] == "relsym":
+        for b in ["proj", "proj/wd", "proj/mods", "proj/mods/wd", "proj/imp", "proj/mods/deep", "other", "other/wd", "abs1"]:
+            os.symlink(os.path.join(d, "abs2"), os.path.join(d, b, "lnk"))
+            os.makedirs(os.path.join(d, b, "elsewhere"), exist_ok=True)
     shell = 'set shell := ["%s", "-c"]\n' % C.VSH
 
     def setting_text(s):
@@ -70,6 +76,8 @@ def layout(d, c):
         attrs += "[no-cd]\n"
     if c["attr"] == "rel":
         attrs += "[working-directory('ad')]\n"
+    elif c["attr"] == "relsym":
+        attrs += "[working-directory('lnk/../elsewhere')]\n"
     elif c["attr"] == "abs":
         attrs += "[working-directory('%s')]\n" % os.path.join(d, "abs2")
     line = "[T] {{invocation_directory()}}|{{justfile_directory()}}|{{source_directory()}}|{{`[Bint]`}}"
@@ -153,7 +161,7 @@ def model_ctx(d, c):
     ctx = {"invocationDir": comps(os.path.join(d, c["inv"])), "search": search, "chain": chain,
            "setting": rel(c[which], "wd", "abs1") if which else None}
     root_ctx = {"invocationDir": ctx["invocationDir"], "search": search, "chain": [], "setting": rel(c["set_root"], "wd", "abs1")}
-    attrs = {"noCd": c["nocd"], "attr": rel(c["attr"], "ad", "abs2")}
+    attrs = {"noCd": c["nocd"], "attr": rel(c["attr"] if c["attr"] != "relsym" else None, "ad", "abs2")}
     return ctx, attrs, root_ctx
 
 
@@ -173,6 +181,8 @@ def spec(d, c):
         cwd = inv
     elif c["attr"] == "rel":
         cwd = base + "/ad"
+    elif c["attr"] == "relsym":
+        cwd = os.path.join(d, "elsewhere")       # <base>/lnk -> <d>/abs2, and abs2/.. is <d>
     elif c["attr"] == "abs":
         cwd = os.path.join(d, "abs2")
     else:
@@ -264,6 +274,8 @@ def run(report):
             kind = bad[0] + (":script" if c["script"] and bad[0] == "recipe" else "")
             report.failure("c09-dir:%s" % kind, "%s is %s, documented: %s" % (bad[0], obs[bad[0]], want[bad[0]]), replay)
             continue
+        if c["attr"] == "relsym":
+            continue        # (symbolic links are the file system's business: statement only, the model has no links)
         mm = {k: "/" + "/".join(m[k]) for k in keys}
         mm = {k: strip(v) for k, v in mm.items()}
         if mm != obs:
